@@ -533,17 +533,26 @@ impl Mp4Track {
                             )?;
                         }
                         let duration = trun.sample_durations[sample_idx];
-                        return Ok((base_start_time + start_offset, duration));
+                        let start_time = base_start_time.checked_add(start_offset).ok_or(
+                            Error::InvalidData("attempt to calculate sample start time with overflow"),
+                        )?;
+                        return Ok((start_time, duration));
                     }
                 }
             }
-            let start_offset = ((sample_id - 1) * default_sample_duration) as u64;
-            Ok((base_start_time + start_offset, default_sample_duration))
+            let start_time = sample_id
+                .checked_sub(1)
+                .map(|n| n as u64 * default_sample_duration as u64)
+                .and_then(|start_offset| base_start_time.checked_add(start_offset))
+                .ok_or(Error::InvalidData(
+                    "attempt to calculate sample start time with overflow",
+                ))?;
+            Ok((start_time, default_sample_duration))
         } else {
             let stts = &self.trak.mdia.minf.stbl.stts;
 
             let mut sample_count: u32 = 1;
-            let mut elapsed = 0;
+            let mut elapsed: u64 = 0;
 
             for entry in stts.entries.iter() {
                 let new_sample_count =
@@ -553,13 +562,22 @@ impl Mp4Track {
                             "attempt to sum stts entries sample_count with overflow",
                         ))?;
                 if sample_id < new_sample_count {
-                    let start_time =
-                        (sample_id - sample_count) as u64 * entry.sample_delta as u64 + elapsed;
+                    let start_time = sample_id
+                        .checked_sub(sample_count)
+                        .map(|n| n as u64 * entry.sample_delta as u64)
+                        .and_then(|n| n.checked_add(elapsed))
+                        .ok_or(Error::InvalidData(
+                            "attempt to calculate sample start time with overflow",
+                        ))?;
                     return Ok((start_time, entry.sample_delta));
                 }
 
                 sample_count = new_sample_count;
-                elapsed += entry.sample_count as u64 * entry.sample_delta as u64;
+                elapsed = elapsed
+                    .checked_add(entry.sample_count as u64 * entry.sample_delta as u64)
+                    .ok_or(Error::InvalidData(
+                        "attempt to sum stts entries duration with overflow",
+                    ))?;
             }
 
             Err(Error::EntryInStblNotFound(
